@@ -356,6 +356,14 @@ def w_value(job):
     return evals, nontriv, _cap(fails)
 
 
+
+def rejob(x):
+    """Re-execute one worker job (used by ./check --rejob for history-dependent failures)."""
+    def tup(v):
+        return tuple(tup(y) for y in v) if isinstance(v, list) else v
+    return globals()[x[0]](tup(x[1]))
+
+
 def _dispatch(job):
     fn, arg = job
     return fn(arg)
@@ -372,30 +380,32 @@ REPRESENTATIVE = [("+", "*"), ("-", "-"), ("*", "+"), ("/", "*"), ("%", "+"), ("
 def run(tier, seed):
     thorough = tier == "thorough"
     jobs = []
-    for n, step in ((2, 13), (3, 169)):
+    # jobs are hermetic (one fresh interpreter each): a few dozen coarse slices
+    for n, step in ((2, 43), (3, 550)):
         for lo, hi in _slices(13 ** n, step):
             jobs.append((w_tree, (n, lo, hi, "plain")))
             jobs.append((w_tree, (n, lo, hi, "paren")))
             jobs.append((w_tree, (n, lo, hi, "assign")))
-    for lo, hi in _slices(13 ** 4, 1024):
+    for lo, hi in _slices(13 ** 4, 7200):
         jobs.append((w_tree, (4, lo, hi, "plain")))
     if thorough:
-        for lo, hi in _slices(13 ** 4, 512):
+        for lo, hi in _slices(13 ** 4, 1800):
             jobs.append((w_tree, (4, lo, hi, "paren")))
-    for lo, hi in _slices(169, 6):
+    for lo, hi in _slices(169, 22):
         jobs.append((w_tree, (2, lo, hi, "layout2")))
     for o1, o2 in REPRESENTATIVE:
         idx = BINOPS.index(o1) * 13 + BINOPS.index(o2)
         jobs.append((w_tree, (2, idx, idx + 1, "layoutfull")))
     # value: all pairs in every embedding; triples via return (quick: plain; thorough: every parenthesisation)
     allk = tuple(EMBEDS)
-    for lo, hi in _slices(169, 3):
+    for lo, hi in _slices(169, 11):
         jobs.append((w_value, (2, lo, hi, allk, False)))
+    for lo, hi in _slices(169, 43):
         jobs.append((w_value, (2, lo, hi, ("return",), True)))
-    for lo, hi in _slices(2197, 20):
+    for lo, hi in _slices(2197, 140):
         jobs.append((w_value, (3, lo, hi, ("return",), False)))
     if thorough:
-        for lo, hi in _slices(2197, 8):
+        for lo, hi in _slices(2197, 35):
             jobs.append((w_value, (3, lo, hi, ("return", "assign"), True)))
     rot = seed % len(jobs) if seed else 0
     order = jobs[rot:] + jobs[:rot]
@@ -405,6 +415,9 @@ def run(tier, seed):
     counts = {}
     per = {}
     for (fn, arg), (e, nt, fl) in zip(order, results):
+        for _f in fl:
+            if isinstance(_f, dict) and "key" in _f:
+                _f.setdefault("job", {"fn": "nslmc.props.c08:rejob", "arg": [fn.__name__, arg]})
         evals += e
         nontriv += nt
         nm = fn.__name__ + ":" + (arg[3] if fn is w_tree else "n=%d" % arg[0])
